@@ -77,7 +77,9 @@ def pAlias (ts : List Tok) : R (Option String) :=
      | t :: r => if t.has NAME then .ok (some (unifyName t.src), r) else .error .parse
      | [] => .error .parse)
   else match ts with
-    | t :: r => if t.has NAME then .ok (some (unifyName t.src), r) else .ok (none, ts)
+    | t :: r =>
+      if t.has NAME && !(["CROSS", "USING", "SORT", "DISTRIBUTE", "CLUSTER"].contains (up t.src)) then .ok (some (unifyName t.src), r)
+      else .ok (none, ts)
     | [] => .ok (none, ts)
 /-- _parse_table_name_expression -/
 def pTableName (ts : List Tok) : R TableRef :=
@@ -200,7 +202,7 @@ def pQualified (d : Gen.D) : Nat → Tok → List Tok → List Tok → R Expr
       if n2.has NAME then
         (if searchMark r2 PAREN then pFuncIdx d f ts
          else pIndex d f (.column (some (unifyName n0.src)) (unifyName n2.src)) r2)
-      else if n2.srcEq "*" then .ok (.wildcard (some n0.src), r2)
+      else if n2.srcEq "*" then .ok (.wildcard (some (unifyName n0.src)), r2)
       else .error .parse
 def pIndex (d : Gen.D) : Nat → Expr → List Tok → R Expr
   | 0, _, _ => .error .fuel
